@@ -17,6 +17,9 @@ use vmc::{Chooser, Config, Outcome, Violation};
 
 /// Error text → class word for fingerprints: digits folded, generated key names folded.
 fn err_class(e: &str) -> String {
+    // header errors name the offending ID: fold it
+    let e: String = e.split(": ").filter(|seg| !seg.starts_with("ID=")).collect::<Vec<_>>().join(": ");
+    let e = e.as_str();
     let mut s = String::new();
     let b: Vec<char> = e.chars().collect();
     let mut i = 0;
